@@ -264,6 +264,9 @@ namespace xtl
 
     private:
 
+        template <class OCTR, class OCTI, bool OB>
+        friend class xcomplex;
+
         CTR m_real;
         CTI m_imag;
     };
@@ -669,7 +672,7 @@ namespace xtl
                         y = value_type(0) * (b*c - a*d);
                     }
                 }
-                return std::complex<value_type>(x, y);
+                return return_type(x, y);
             }
         };
     }
